@@ -446,10 +446,17 @@ fn piece(depth: u32) -> BoxedStrategy<Piece> {
 /// E := piece (infix piece)*  with distinct priorities unless same family
 fn sequence(depth: u32, min: usize, max: usize) -> BoxedStrategy<Vec<Tok>> {
     let p = pools();
+    // operators that bind tighter than the implied multiplication get extra weight: their interplay with
+    // juxtaposition, prefix rows and fences is where precedence bugs hide
+    let times = prio("\u{2062}", "infix").unwrap_or(390);
+    let mut tight: Vec<String> = p.infix_only.iter().filter(|(_, pr)| *pr > times).map(|(t, _)| t.clone()).collect();
+    tight.push("/".to_string());
+    tight.push("÷".to_string());
     let infix = prop_oneof![
-        6 => proptest::sample::select(p.infix_only.clone()).prop_map(|(t, _)| Some(t)),
-        3 => sel(&["+", "-", "×", "=", "<", "→", "∧", "∨", "≤", "∈", "∪", "∩", "⇒", "⊂", "≠", "⋅", "÷", "±"]).prop_map(|s| Some(s.to_string())),
-        2 => Just(None), // juxtaposition
+        5 => proptest::sample::select(p.infix_only.clone()).prop_map(|(t, _)| Some(t)),
+        3 => sel(&["+", "-", "×", "=", "<", "→", "∧", "∨", "≤", "∈", "∪", "∩", "⇒", "⊂", "≠", "⋅", "÷", "±", "/"]).prop_map(|s| Some(s.to_string())),
+        3 => proptest::sample::select(tight).prop_map(Some),
+        3 => Just(None), // juxtaposition
     ];
     (proptest::collection::vec((piece(depth), infix, any::<u8>()), min..=max)).prop_map(|v| {
         let mut out: Vec<Tok> = vec![];
@@ -520,6 +527,11 @@ fn sanitize_seq(toks: Vec<Tok>) -> Vec<Tok> {
                 }
             }
         }
+        // "n / m" after a number is read as a mixed fraction (documented heuristic): a slash is never followed by a number
+        let t = match (&t, out.last()) {
+            (Tok::Atom(tag, _), Some(Tok::Op(op, _))) if tag == "mn" && (op == "/" || op == "∕") => Tok::Atom("mi".into(), "k".into()),
+            _ => t,
+        };
         out.push(t);
     }
     out
